@@ -3,7 +3,7 @@
   Proved: the parameter guards, point ids non-empty and pairwise distinct (PointData is a map), the shape of every
   covariance matrix `parseCovChecked` returns.  Not a theorem, because false for the parser (see the report): the
   cluster-level part of `Net.WF` fails for a `<dh>` with both `dist` and `stdev`, a `<vec>` with `from_dh` / `to_dh`,
-  a `<coordinates>` point that is not active or whose coordinates were overwritten later — exactly the documents the
+  a `<coordinates>` point that is not active (before 6848bc2a also: whose coordinates were overwritten later) — exactly the documents the
   driver reports as `wf 0` on the `doc` stream.
 -/
 import Gama.Lemmas.ExportNet
